@@ -141,6 +141,9 @@ def enclosing(pm, node, kinds):
 
 
 def is_nan_expr(e):
+    v_ = getattr(e, '_xrsa_const', None)          # a module-level constant bound to NaN (normal form N2)
+    if isinstance(v_, float) and v_ != v_:
+        return True
     t = norm(e)
     return t in ('np.nan', 'numpy.nan', 'np.NaN', 'math.nan', "float('nan')", 'nan', 'np.NAN')
 
